@@ -467,7 +467,16 @@ def client_case(ctx, rng, idx, deadline):
                                             "hangup": hang}, **(extra or {})))
     store = storing.Store(stamp=0.0)
     net = hg.MemNet(rng)
-    conn = hg.mem_client(net, store)
+    import zlib
+    recon = hang and zlib.crc32(bytes(data[:40]) + bytes([npieces])) % 3 == 0
+    if recon:
+        # a long-lived client that reconnects on its own: its reconnect timer ran out long ago (it is only restarted by a
+        # reopen), so the cut off and the reopen can fall into the same service pass
+        conn = hg.mem_client(net, store, reconnectable=True, timeout=0.5)
+        store.advanceStamp(2.0)
+        ctx.hit("client_cases_with_a_reconnectable_connector")
+    else:
+        conn = hg.mem_client(net, store)
     patron = clienting.Patron(connector=conn, store=store, hostname="127.0.0.1", port=net.addr[1],
                               **({"dictable": True} if (op == "jsonbody" and rng.random() < 0.5) else {}))
     ss, ca = net.listener.pending.popleft()
@@ -509,7 +518,7 @@ def client_case(ctx, rng, idx, deadline):
     ctx.hit("client:" + outcome)
     ctx.hit("cop:" + op)
     followable = op == "location" and (b"Location: /ok/relative" in data or b"Location: relative?q=1" in data)
-    if hang and not queue and escaped is None and conn.cutoff and not followable:
+    if hang and not queue and escaped is None and (conn.cutoff or recon) and not followable:
         # everything the server sent was delivered, the server closed and the client has noticed: the exchange is over -- a
         # response that can never be completed is an error to record, not something to wait for
         ctx.hit("client_exchanges_ended_by_the_servers_close")
